@@ -29,13 +29,16 @@ DEVICE_BYTES = {
 }
 
 # stages
-ST_FRESH, ST_CONNECTING, ST_OPENED, ST_HELLO_SENT, ST_CONNECTED, ST_DISCONNECTING, ST_RESOLVING = range(7)
-STAGE_NAMES = ["fresh", "connecting", "socket-opened", "hello-sent", "connected", "disconnecting", "resolving"]
+ST_FRESH, ST_CONNECTING, ST_OPENED, ST_HELLO_SENT, ST_CONNECTED, ST_DISCONNECTING, ST_RESOLVING, ST_RESOLVING_MDNS = range(8)
+STAGE_NAMES = ["fresh", "connecting", "socket-opened", "hello-sent", "connected", "disconnecting", "resolving", "resolving via the real resolver (mDNS request in flight)"]
 
 
 class Scenario:
     def __init__(self, stage: int, *, login: bool = True, world_kw=None):
-        self.w = World(**(world_kw or {}))
+        world_kw = dict(world_kw or {})
+        if stage == ST_RESOLVING_MDNS:
+            world_kw["real_resolver"] = True
+        self.w = World(**world_kw)
         self.loop = self.w.loop
         self.conn = self.w.new_connection()
         self.login = login
@@ -115,7 +118,7 @@ class Scenario:
         w = self.w
         if stage == ST_FRESH:
             return
-        if stage == ST_RESOLVING:
+        if stage in (ST_RESOLVING, ST_RESOLVING_MDNS):
             w.resolve_mode = "pending"
             self.spawn("start", self.conn.start_connection)
             self.drain()
